@@ -632,6 +632,46 @@ def u_assign_ndarray(W, sk):
         W.prove("assign_ndarray.copied", W.buffer_id(x.values) != W.buffer_id(v), kind="ownership", detail="an ndarray assigned through [] must be copied")
 
 
+@unit(
+    "index.write_errors",
+    props=["C06", "C05", "C13"],
+    targets=WRITE_TARGETS if False else ["flodym.flodym_arrays.FlodymArray.__setitem__", "flodym.flodym_arrays.SubArrayHandler._set_ids_single_dim", "flodym.flodym_arrays.SubArrayHandler._get_single_item_id"],
+    skeletons=sk_read_errors,
+    note="writes through keys that must be refused: an unknown single item (bare / dict / tuple), an unknown item inside a list of items (alone and next to known items), a Dimension that is not a subset, a numpy-style slice; the target is left exactly as it was",
+)
+def u_write_errors(W, sk):
+    D = mk_dims(W, sk["x"])
+    x = W.array("x", [D[l] for l in sk["x"]])
+    l = sk["x"][sk["j"]]
+    snaps = SL.snapshot(W, [x])
+    stranger = W.foreign_item("zz", [D[m] for m in sk["x"]])
+    known, _ = W.item_in(D[l], "it")
+    c = W.number("c")
+
+    def put(key):
+        def do():
+            x[key] = c
+
+        return W.call(do)
+
+    SL.check_raises(W, "write(unknown item, bare)", put(stranger), ValueError)
+    SL.check_raises(W, "write(unknown item, dict)", put({l: stranger}), ValueError)
+    SL.check_raises(W, "write(list with only an unknown item)", put({l: [stranger]}), ValueError)
+    SL.check_raises(W, "write(list of a known and an unknown item)", put({l: [known, stranger]}), ValueError)
+    SL.check_raises(W, "write(list of an unknown and a known item)", put({l: [stranger, known]}), ValueError)
+    SL.check_raises(W, "write(slice)", put(slice(0, 1)), ValueError)
+    bad = W.subset_dim(D[l], SUBLETTER[l], "bad", subset=False)
+    out = put({l: bad})
+    if W.symbolic:
+        if not bool(bad.items.subset_of(D[l].items)):
+            SL.check_raises(W, "write(Dimension that is not a subset)", out, ValueError)
+    else:
+        SL.check_raises(W, "write(Dimension that is not a subset)", out, ValueError)
+        SL.check_unchanged(W, "write_errors", snaps)
+        return
+    SL.check_unchanged(W, "write_errors(refused keys)", snaps) if out.kind == "raise" else None
+
+
 # ----------------------------------------------------------------------------------------
 # must-fail guards
 
